@@ -65,7 +65,7 @@ class DiskObserver(SearchRecorder):
                             "agg": agg, "prev": prev})
 
 
-def build(path, nobj, mode, onlybest, nextra, via, events, sidelog=None, collide=False, inf=False):
+def build(path, nobj, mode, onlybest, nextra, via, events, sidelog=None, collide=False, inf=False, aslist=False):
     """returns (tracker, cfg); mode: 'default' columns or 'custom' fields.
     collide: the last extra field carries the NAME of a column that is configured already (it replaces that column in place);
     inf: the fitness is infinitely bad (-inf, the problem maximises) for some programs"""
@@ -74,7 +74,10 @@ def build(path, nobj, mode, onlybest, nextra, via, events, sidelog=None, collide
         if inf and nobj == 1 and v % 3 != 1:
             return [float("-inf")]
         return [float(v + 10 * k) for k in range(nobj)]  # distinct per component
-    if nobj == 1:
+    if nobj == 1 and aslist:
+        # ONE objective declared the multi-objective way (a one-element list), as SimpleGP does for minimize=[..]
+        problem = MultiObjectiveProblem([False], lambda ph: comps_of(ph))
+    elif nobj == 1:
         problem = SingleObjectiveProblem(lambda ph: comps_of(ph)[0], minimize=False)
     else:
         problem = MultiObjectiveProblem([False] * nobj, lambda ph: comps_of(ph))
@@ -144,11 +147,11 @@ def build(path, nobj, mode, onlybest, nextra, via, events, sidelog=None, collide
     return tracker, cfg
 
 
-def session(R, workdir, idx, nobj, mode, onlybest, nextra, via, nreg, collide=False, inf=False):
+def session(R, workdir, idx, nobj, mode, onlybest, nextra, via, nreg, collide=False, inf=False, aslist=False, prescored=False):
     path = os.path.join(workdir, f"log_{idx}.csv")
     events = []
     try:
-        tracker, cfg = build(path, nobj, mode, onlybest, nextra, via, events, collide=collide, inf=inf)
+        tracker, cfg = build(path, nobj, mode, onlybest, nextra, via, events, collide=collide, inf=inf, aslist=aslist)
     except Exception as e:
         return [{"e": "sessionfail", "exc": type(e).__name__}], \
             {"k": "csv", "header": [], "kinds": [], "onlybest": bool(onlybest), "nobj": nobj, "nextra": nextra, "via": via}
@@ -157,6 +160,12 @@ def session(R, workdir, idx, nobj, mode, onlybest, nextra, via, nreg, collide=Fa
     rs = NativeRandomSource(R.randint(0, 10 ** 6))
     rep = make_rep("tree", rs)
     inds = [Individual(rep.create_genotype(rs), rep) for _ in range(nreg)]
+    keep = None
+    if prescored:
+        # the individuals were scored for ANOTHER problem first (a proxy, other values): the log is about the recorded problem
+        keep = MultiObjectiveProblem([False] * nobj, lambda ph: [float(prog_value(ph.prog) * 3 + 500 + k) for k in range(nobj)]) \
+            if nobj > 1 else SingleObjectiveProblem(lambda ph: float(prog_value(ph.prog) * 3 + 500), minimize=False)
+        SequentialEvaluator().evaluate(keep, inds)
     i = 0
     while i < len(inds):
         k = R.randint(1, 3)
@@ -269,6 +278,13 @@ def main():
             for (nextra, collide, inf) in ((1, True, False), (2, True, False), (0, False, True), (1, True, True)):
                 ev, cfg = session(R, work, idx, 1, mode, onlybest, nextra, via, R.randint(4, 12), collide=collide, inf=inf)
                 batch.trace(f"csv/{idx}/{cfg['via']}/special/{nextra}{int(collide)}{int(inf)}/{'best' if onlybest else 'all'}", ev, cfg)
+                nev += len(ev)
+                idx += 1
+    for via, mode in (("direct", "default"), ("simplegp", "default")):
+        for onlybest in (True, False):
+            for (nobj, aslist, prescored) in ((1, True, False), (1, False, True), (2, False, True), (1, True, True)):
+                ev, cfg = session(R, work, idx, nobj, mode, onlybest, 1, via, R.randint(5, 12), aslist=aslist, prescored=prescored)
+                batch.trace(f"csv/{idx}/{cfg['via']}/special2/{nobj}{int(aslist)}{int(prescored)}/{'best' if onlybest else 'all'}", ev, cfg)
                 nev += len(ev)
                 idx += 1
     nkill = 6 if quick else 200
